@@ -139,6 +139,27 @@ var values = []namedVal{
 	{"chan", make(chan int)}, {"func", func() {}}, {"time.Time", time.Unix(0, 0)}, {"complex", complex(1, 2)},
 }
 
+// quantityValues: scientific-notation quantities derived from the grammar
+// mantissa (E|e) [+|-] digits [suffix], with exponents at and beyond the int32
+// edges — used in one-entry maps only (a seeded change showed that an explicit
+// '+' sign was not in the alphabet).
+var quantityValues = func() []namedVal {
+	var out []namedVal
+	for _, m := range []string{"1", "1.5", "0", ""} {
+		for _, e := range []string{"E", "e"} {
+			for _, sg := range []string{"", "+", "-", "+-", "++"} {
+				for _, x := range []string{"0", "3", "18", "19", "308", "2147483647", "2147483648", "4294967296", "9999999999", "0003000000000", ""} {
+					for _, suf := range []string{"", "Ki", "m"} {
+						v := m + e + sg + x + suf
+						out = append(out, namedVal{fmt.Sprintf("%q", v), v})
+					}
+				}
+			}
+		}
+	}
+	return out
+}()
+
 var coreValues = map[string]bool{"nil": true, `""`: true, `"x"`: true, `"1"`: true, `"-1"`: true, `"1.5"`: true, `"true"`: true, `"1h"`: true, `"1Ki"`: true, `"99999999999999999999"`: true,
 	"int 1": true, "[]any{1,\"x\"}": true, "map[string]any{a:1}": true, "(*string)(nil)": true}
 
@@ -311,7 +332,7 @@ func trees(depth int) []namedVal {
 func pairArea(name string, names []string, thorough bool, f func(c *guard.Ctx, es []entry)) *guard.Area {
 	return &guard.Area{
 		Name: name, Chunks: len(names) + 1,
-		Bound: fmt.Sprintf("every one-entry map over %d key spellings x %d values; every two-entry map over the same (quick: over the core of 12 names x 14 values); the empty map", len(names), len(values)),
+		Bound: fmt.Sprintf("every one-entry map over %d key spellings x (%d values + the scientific-notation quantity grammar); every two-entry map over the same (quick: over the core of 12 names x 14 values); the empty map", len(names), len(values)),
 		Run: func(c *guard.Ctx, ci int) {
 			if ci == len(names) {
 				f(c, nil)
@@ -339,6 +360,9 @@ func pairArea(name string, names []string, thorough bool, f func(c *guard.Ctx, e
 				}
 				// same key in two spellings (duplicate after lower-casing)
 				f(c, []entry{{k1, v1}, {strings.ToUpper(k1), v1}})
+			}
+			for _, v1 := range quantityValues {
+				f(c, []entry{{k1, v1}})
 			}
 		},
 	}
